@@ -105,7 +105,7 @@ PROPS = {
                   ("IM", 14, has("IM2", "IM3")), ("HE", 2, has("BddNode:scratch", "BddNode:fields")),
                   ("DT", 7, has("BddPtr", "BottomUpBuilder::or:", "BottomUpBuilder::compose:")),
                   ("FS", 2, has("or_lst", "and_lst")), ("ST", 2, None), ("GL", 1, has("GL6")), ("VO", 14, vo_sel("::bdd::", "var_order")),
-                  ("GL", 9, has(":GL1:", ":GL2:", "ite_helper:GL4", ":GL5:", ":GL8:", ":GL13:", "ite_helper:GL11")),
+                  ("GL", 11, has(":GL1:", ":GL2:", "ite_helper:GL4", ":GL5:", ":GL8:", ":GL13:", "ite_helper:GL11")),
                   ("PM", 2, has("::set:", "assignment_iter")),
                   ("SH", 6, has("RobddBuilder", "BottomUpBuilder<repr::bdd::BddPtr> for T>::var")),
                   ("MK", 1, has("::bdd::")), ("WC", 4, has("bdd-node"))],
@@ -119,7 +119,7 @@ PROPS = {
                        "only new+alloc (IM2, IM3), node fields Freeze except the two private cells (HE); (c) derived operators "
                        "and/iff/xor/exists/negate/or/compose evaluate to their names' truth tables (DT); (d) list operations "
                        "are seeded with the neutral element (FS). Not decided: Shannon expansion, the standard-triple "
-                       "rewriting in Ite::new, order handling — most of the property. Added: the apply cache cannot change a result (Lru get/insert/grow keep key, value and hash together, the BDD ite cache uses one key and one hash: GL1, GL2, GL4, GL5); label numbering never decides an ordering question (VO label-order). Added after the fourth seeding round: every function that looks a pointer up in a pointer-valued memo, returns the hit and inserts into the same memo applies the argument's sign the same way going in and coming out (MK1: hit returned as neg^r(X) means stored V and returned R on a miss satisfy R = neg^r(V), for each sign), and a memo entry shared by a node and its complement without sign adjustment is only allowed for a function that never returns its argument itself (MK2). Today's only instance is cond_with_alloc; the rule ranges over all functions, so a memo added to another traversal is checked too. Added: WC bdd-node — only var, ite_helper, cond_with_alloc and smooth_helper hand nodes to the BDD unique table: they are what establishes the variable order of an interned node, and a mis-ordered node makes later conditioning/quantification wrong. Added (round 9): DF - a label-indexed table (order positions, weights, watch lists, occurrence lists, vtree index) has no default entry: a checked lookup `get(label)` may refuse, but its missing case may not be papered over with a made-up entry shared by every unknown label (defaulting combinators; a `None` edge that reaches a normal return). Added (round 10): DI - a field initialised with a function of a sibling field (eagerly derived) is stored again by every method that changes the sibling, also through interior mutability; PA - a call that opens a scope (enter/begin/open/...) whose counterpart exists in the crate is followed by the counterpart on every path to a return. FS empty-list: or_lst / and_lst written through a combining helper give the neutral element for the empty list. SH6: condition_model may pass a literal over only when the diagram is constant or the variable is strictly before the root.",
+                       "rewriting in Ite::new, order handling — most of the property. Added: the apply cache cannot change a result (Lru get/insert/grow keep key, value and hash together, the BDD ite cache uses one key and one hash: GL1, GL2, GL4, GL5); label numbering never decides an ordering question (VO label-order). Added after the fourth seeding round: every function that looks a pointer up in a pointer-valued memo, returns the hit and inserts into the same memo applies the argument's sign the same way going in and coming out (MK1: hit returned as neg^r(X) means stored V and returned R on a miss satisfy R = neg^r(V), for each sign), and a memo entry shared by a node and its complement without sign adjustment is only allowed for a function that never returns its argument itself (MK2). Today's only instance is cond_with_alloc; the rule ranges over all functions, so a memo added to another traversal is checked too. Added: WC bdd-node — only var, ite_helper, cond_with_alloc and smooth_helper hand nodes to the BDD unique table: they are what establishes the variable order of an interned node, and a mis-ordered node makes later conditioning/quantification wrong. Added (round 9): DF - a label-indexed table (order positions, weights, watch lists, occurrence lists, vtree index) has no default entry: a checked lookup `get(label)` may refuse, but its missing case may not be papered over with a made-up entry shared by every unknown label (defaulting combinators; a `None` edge that reaches a normal return). Added (round 10): DI - a field initialised with a function of a sibling field (eagerly derived) is stored again by every method that changes the sibling, also through interior mutability; PA - a call that opens a scope (enter/begin/open/...) whose counterpart exists in the crate is followed by the counterpart on every path to a return. FS empty-list: or_lst / and_lst written through a combining helper give the neutral element for the empty list. SH6: condition_model may pass a literal over only when the diagram is constant or the variable is strictly before the root. Added (round 10, second half): GL13 - a key an ITE table computes from the triple (operands re-oriented to merge the entries of a commutative connective) denotes the same function as the triple under the very conditions of the rewriting: ite(f,g,false) may be re-oriented, ite(f,g,true) may not.",
     },
     "C03": {
         "level": "other",
@@ -127,7 +127,7 @@ PROPS = {
                   ("IM", 14, has("IM2", "IM3")), ("HE", 4, has("BinarySDD:scratch", "SddOr:scratch", "BinarySDD:fields", "SddOr:fields")),
                   ("ST", 2, None), ("SH", 1, has("SddPtr> for T>::condition")), ("SA", 10, None), ("VX", 11, None),
                   ("VO", 1, vo_sel("::sdd::", only_label_order=True)),
-                  ("GL", 12, has(":GL1:", ":GL2:", "SddPtr> for T>::ite:GL4", "SddPtr> for T>::and:GL4", "AllIteTable:GL8", "AllIteTable:GL13", ":GL10:", "SddPtr> for T>::ite:GL11", "SddPtr> for T>::and:GL11")),
+                  ("GL", 13, has(":GL1:", ":GL2:", "SddPtr> for T>::ite:GL4", "SddPtr> for T>::and:GL4", "AllIteTable:GL8", "AllIteTable:GL13", ":GL10:", "SddPtr> for T>::ite:GL11", "SddPtr> for T>::and:GL11")),
                   ("BT", 9, None), ("MK", 0, has("::sdd::")), ("WC", 4, has("sdd-")), ("WC", 6, has("sdd-node")), ("CM", 8, None), ("RN", 3, has("exhaustive-primes"))],
         "explanation": "Complement coherence of every place the SDD code touches subs/children of a possibly complemented node "
                        "(and_sub_desc, and_prime_desc, and_cartesian, condition, SddPtr::{low,high,neg,is_neg}): operands of "
@@ -135,7 +135,7 @@ PROPS = {
                        "a complemented pointer; primes are never sign-dependent (CP). Derived operators ite/iff/xor/exists/"
                        "negate/or/compose match their truth tables (DT); the standard-triple normalisation used by the SDD ite preserves "
                        "ite(f,g,h) (ST); a literal conditioned on its own variable is True iff polarity == value (SH). History immunity (IM, HE). Not decided: the vtree "
-                       "case analysis of and, cartesian-product shortcuts, conditioning's element recursion. Added: no ordering comparison of variable labels in SDD code - vtree positions decide (VO label-order); every implementor's compose satisfies the documented definition with g allowed to mention the variable (DT on overrides); the SDD ite/and caches use one key and one hash and the Lru keeps key/value/hash together (GL1, GL2, GL4). Added after the fourth seeding round: every function that looks a pointer up in a pointer-valued memo, returns the hit and inserts into the same memo applies the argument's sign the same way going in and coming out (MK1: hit returned as neg^r(X) means stored V and returned R on a miss satisfy R = neg^r(V), for each sign), and a memo entry shared by a node and its complement without sign adjustment is only allowed for a function that never returns its argument itself (MK2). There is no such memo in the SDD code today (floor 0); the rule ranges over all functions, so one that is added is checked. Ownership (WC sdd caches): the apply cache is keyed by the operands of a conjunction and the ite cache by a standard triple; neither key names the operation, so app_cache_* is used by `and` only and ite_cache_* by `ite` only (or by private helpers of those). A second operation filed under such keys is reported. Added: WC sdd-node — SDD decision nodes are built (unique_bdd / unique_or / canonicalize) only by the four and_* cases and condition, or by private helpers called only from those: they are what establishes that primes live under the left and subs under the right child of the node's vtree position; the constructors intern whatever they are handed. Added: CM — compression merges two elements only on equal subs and keeps the disjunction of *both* primes in the element that stays (a lost prime changes the function, not just the shape); RN3 exhaustive-primes — an operation leaves an element out only because its prime is empty, never on a test of its sub. Added (round 9): DF - a label-indexed table (order positions, weights, watch lists, occurrence lists, vtree index) has no default entry: a checked lookup `get(label)` may refuse, but its missing case may not be papered over with a made-up entry shared by every unknown label (defaulting combinators; a `None` edge that reaches a normal return). SH2 binary-case: a direct conditioning of a binary SDD node returns high(f) for value=true and low(f) for value=false for both signs (the accessors already apply the complement); the complement flag of the shared ITE tables (CP compl-flag) is part of this check because the SDD ite files its results there. Added (round 10): DI - a field initialised with a function of a sibling field (eagerly derived) is stored again by every method that changes the sibling, also through interior mutability; PA - a call that opens a scope (enter/begin/open/...) whose counterpart exists in the crate is followed by the counterpart on every path to a return.",
+                       "case analysis of and, cartesian-product shortcuts, conditioning's element recursion. Added: no ordering comparison of variable labels in SDD code - vtree positions decide (VO label-order); every implementor's compose satisfies the documented definition with g allowed to mention the variable (DT on overrides); the SDD ite/and caches use one key and one hash and the Lru keeps key/value/hash together (GL1, GL2, GL4). Added after the fourth seeding round: every function that looks a pointer up in a pointer-valued memo, returns the hit and inserts into the same memo applies the argument's sign the same way going in and coming out (MK1: hit returned as neg^r(X) means stored V and returned R on a miss satisfy R = neg^r(V), for each sign), and a memo entry shared by a node and its complement without sign adjustment is only allowed for a function that never returns its argument itself (MK2). There is no such memo in the SDD code today (floor 0); the rule ranges over all functions, so one that is added is checked. Ownership (WC sdd caches): the apply cache is keyed by the operands of a conjunction and the ite cache by a standard triple; neither key names the operation, so app_cache_* is used by `and` only and ite_cache_* by `ite` only (or by private helpers of those). A second operation filed under such keys is reported. Added: WC sdd-node — SDD decision nodes are built (unique_bdd / unique_or / canonicalize) only by the four and_* cases and condition, or by private helpers called only from those: they are what establishes that primes live under the left and subs under the right child of the node's vtree position; the constructors intern whatever they are handed. Added: CM — compression merges two elements only on equal subs and keeps the disjunction of *both* primes in the element that stays (a lost prime changes the function, not just the shape); RN3 exhaustive-primes — an operation leaves an element out only because its prime is empty, never on a test of its sub. Added (round 9): DF - a label-indexed table (order positions, weights, watch lists, occurrence lists, vtree index) has no default entry: a checked lookup `get(label)` may refuse, but its missing case may not be papered over with a made-up entry shared by every unknown label (defaulting combinators; a `None` edge that reaches a normal return). SH2 binary-case: a direct conditioning of a binary SDD node returns high(f) for value=true and low(f) for value=false for both signs (the accessors already apply the complement); the complement flag of the shared ITE tables (CP compl-flag) is part of this check because the SDD ite files its results there. Added (round 10): DI - a field initialised with a function of a sibling field (eagerly derived) is stored again by every method that changes the sibling, also through interior mutability; PA - a call that opens a scope (enter/begin/open/...) whose counterpart exists in the crate is followed by the counterpart on every path to a return. Added (round 10, second half): GL13 (see C01).",
     },
     "C06": {
         "level": "other",
@@ -173,7 +173,7 @@ PROPS = {
         "explanation": "Level bookkeeping of smooth_helper: every node built is labelled with var_at_level(current) or with a "
                        "node variable that a dominating test equates with it, children recurse one level down, smooth starts "
                        "at level 0 (SL); the complemented arm is sign-coherent (CP); callers count on smooth(_, num_vars) "
-                       "(SL2). Not decided: equality of the count with the brute-force sum. Added: IC — the weight table, indexed by label, is sized by a label bound (largest label + 1), not by the number of entries of the map it is built from (defect D10, repaired). Added: LT/WT — the weight table the count of the smoothed diagram reads keeps its label indexing (growth only: a resize is guarded by, or takes the maximum with, the current length) and is filled and read entry-for-entry. Added: NB — finite-field weights stay inside u128 for every exported prime and, since the type is generic in its modulus, for every modulus its own addition supports (P <= 2^127), loop bodies and left shifts included. Added after the seventh seeding round: the count taken on the smoothed diagram is a fold over per-node memos, so the traversal discipline it rests on is part of this check — what the fold descends below is marked, so the clearing walk that stops at an unmarked node is complete (SP1, SP2), the two-polarity memo is read and written in the slot of the pointer's own polarity (MS), the literal weights are paired with the matching children (SH5): a second count of a smoothed diagram with other weights must not see the first one's values. Added (round 9): DF - a label-indexed table (order positions, weights, watch lists, occurrence lists, vtree index) has no default entry: a checked lookup `get(label)` may refuse, but its missing case may not be papered over with a made-up entry shared by every unknown label (defaulting combinators; a `None` edge that reaches a normal return). GL6/GL9 of the BDD code are part of this check: a memo on the smoothing path is fresh per call or keyed by everything the result depends on (level *and* width). Added (round 10): DI - a field initialised with a function of a sibling field (eagerly derived) is stored again by every method that changes the sibling, also through interior mutability; PA - a call that opens a scope (enter/begin/open/...) whose counterpart exists in the crate is followed by the counterpart on every path to a return.",
+                       "(SL2). Not decided: equality of the count with the brute-force sum. Added: IC — the weight table, indexed by label, is sized by a label bound (largest label + 1), not by the number of entries of the map it is built from (defect D10, repaired). Added: LT/WT — the weight table the count of the smoothed diagram reads keeps its label indexing (growth only: a resize is guarded by, or takes the maximum with, the current length) and is filled and read entry-for-entry. Added: NB — finite-field weights stay inside u128 for every exported prime and, since the type is generic in its modulus, for every modulus its own addition supports (P <= 2^127), loop bodies and left shifts included. Added after the seventh seeding round: the count taken on the smoothed diagram is a fold over per-node memos, so the traversal discipline it rests on is part of this check — what the fold descends below is marked, so the clearing walk that stops at an unmarked node is complete (SP1, SP2), the two-polarity memo is read and written in the slot of the pointer's own polarity (MS), the literal weights are paired with the matching children (SH5): a second count of a smoothed diagram with other weights must not see the first one's values. Added (round 9): DF - a label-indexed table (order positions, weights, watch lists, occurrence lists, vtree index) has no default entry: a checked lookup `get(label)` may refuse, but its missing case may not be papered over with a made-up entry shared by every unknown label (defaulting combinators; a `None` edge that reaches a normal return). GL6/GL9 of the BDD code are part of this check: a memo on the smoothing path is fresh per call or keyed by everything the result depends on (level *and* width). Added (round 10): DI - a field initialised with a function of a sibling field (eagerly derived) is stored again by every method that changes the sibling, also through interior mutability; PA - a call that opens a scope (enter/begin/open/...) whose counterpart exists in the crate is followed by the counterpart on every path to a return. Added (round 10, second half): GL12 - a table of don't-care chains kept in the builder and indexed by the number of levels left is stale for another total; SL4 - the levels below a constant are counted from the caller's bound, not from the size of the order.",
     },
     "C10": {
         "level": "proof",
@@ -212,7 +212,7 @@ PROPS = {
                        "logical operations reduce (low == high returns the child) and normalise the high edge before "
                        "interning (RN1, RN2); nodes enter only through the table and pointer variants are built only from "
                        "table results or existing nodes (IM3, IM4). Not decided: the iff between pointer and function "
-                       "equality in general, order-respect on every path, robin-hood probe-length arithmetic. Added: the standard-triple normalisation denotes ite(f,g,h) on all 8-valuation paths (ST) - a wrong triple makes results of one function differ; BddNode's Ord pairs the structural fields (HE ord-fields). Added after the fourth seeding round: ite_helper splits on first_essential(f,g,h) — the earliest top variable of all three operands — and builds the node from the cofactors on that variable (SH1); the LRU apply cache writes key, value and hash of a slot together and re-inserts whole elements on growth (GL2), so an eviction cannot leave a key paired with another key's value. Ownership (WC bdd-node): BddBuilder::get_or_insert interns whatever it is handed; that a node respects the variable order is established only by its callers - var, ite_helper, cond_with_alloc, smooth_helper (or private helpers called only from them). Any other caller is reported: it would have to bring its own ordering argument. Added (round 9): DF - a label-indexed table (order positions, weights, watch lists, occurrence lists, vtree index) has no default entry: a checked lookup `get(label)` may refuse, but its missing case may not be papered over with a made-up entry shared by every unknown label (defaulting combinators; a `None` edge that reaches a normal return). RH also checks the probe length the evicted resident continues with (propagate's seed against its call sites) and propagate's first probed slot against the home slots grow hands in. Added (round 10): DI - a field initialised with a function of a sibling field (eagerly derived) is stored again by every method that changes the sibling, also through interior mutability; PA - a call that opens a scope (enter/begin/open/...) whose counterpart exists in the crate is followed by the counterpart on every path to a return.",
+                       "equality in general, order-respect on every path, robin-hood probe-length arithmetic. Added: the standard-triple normalisation denotes ite(f,g,h) on all 8-valuation paths (ST) - a wrong triple makes results of one function differ; BddNode's Ord pairs the structural fields (HE ord-fields). Added after the fourth seeding round: ite_helper splits on first_essential(f,g,h) — the earliest top variable of all three operands — and builds the node from the cofactors on that variable (SH1); the LRU apply cache writes key, value and hash of a slot together and re-inserts whole elements on growth (GL2), so an eviction cannot leave a key paired with another key's value. Ownership (WC bdd-node): BddBuilder::get_or_insert interns whatever it is handed; that a node respects the variable order is established only by its callers - var, ite_helper, cond_with_alloc, smooth_helper (or private helpers called only from them). Any other caller is reported: it would have to bring its own ordering argument. Added (round 9): DF - a label-indexed table (order positions, weights, watch lists, occurrence lists, vtree index) has no default entry: a checked lookup `get(label)` may refuse, but its missing case may not be papered over with a made-up entry shared by every unknown label (defaulting combinators; a `None` edge that reaches a normal return). RH also checks the probe length the evicted resident continues with (propagate's seed against its call sites) and propagate's first probed slot against the home slots grow hands in. Added (round 10): DI - a field initialised with a function of a sibling field (eagerly derived) is stored again by every method that changes the sibling, also through interior mutability; PA - a call that opens a scope (enter/begin/open/...) whose counterpart exists in the crate is followed by the counterpart on every path to a return. Added (round 10, second half): DI eager, arithmetic form and the masked home slot (see C04).",
     },
     "C04": {
         "level": "other",
@@ -222,7 +222,7 @@ PROPS = {
                        "sign-normalise, intern: RN3), Hash/Eq agreement of BinarySDD/SddOr/SddAnd and identity Hash/Eq of "
                        "SddPtr (HE), the shared unique-table rules (GL3, TS-OCC), nodes enter only through the tables (IM4). "
                        "Not decided: that primes form a partition, stay on their vtree side, that no smaller equivalent "
-                       "exists — semantic facts about run-time element lists. Added: the hand-written Ord of BinarySDD/SddOr/SddAnd (the sort key of unique_or) pairs self.F with other.F for exactly the structural fields (HE ord-fields); only canonicalize implementations and and_indep may call unique_or, which neither trims nor compresses (RN3 unique_or-caller). Added: WC sdd-node — SDD decision nodes are built (unique_bdd / unique_or / canonicalize) only by the four and_* cases and condition, or by private helpers called only from those: they are what establishes that primes live under the left and subs under the right child of the node's vtree position; the constructors intern whatever they are handed. Added (round 9): DF - a label-indexed table (order positions, weights, watch lists, occurrence lists, vtree index) has no default entry: a checked lookup `get(label)` may refuse, but its missing case may not be papered over with a made-up entry shared by every unknown label (defaulting combinators; a `None` edge that reaches a normal return). RH displaced-keeps-length / grow vs propagate's start slot (see C02). Added (round 10): DI - a field initialised with a function of a sibling field (eagerly derived) is stored again by every method that changes the sibling, also through interior mutability; PA - a call that opens a scope (enter/begin/open/...) whose counterpart exists in the crate is followed by the counterpart on every path to a return.",
+                       "exists — semantic facts about run-time element lists. Added: the hand-written Ord of BinarySDD/SddOr/SddAnd (the sort key of unique_or) pairs self.F with other.F for exactly the structural fields (HE ord-fields); only canonicalize implementations and and_indep may call unique_or, which neither trims nor compresses (RN3 unique_or-caller). Added: WC sdd-node — SDD decision nodes are built (unique_bdd / unique_or / canonicalize) only by the four and_* cases and condition, or by private helpers called only from those: they are what establishes that primes live under the left and subs under the right child of the node's vtree position; the constructors intern whatever they are handed. Added (round 9): DF - a label-indexed table (order positions, weights, watch lists, occurrence lists, vtree index) has no default entry: a checked lookup `get(label)` may refuse, but its missing case may not be papered over with a made-up entry shared by every unknown label (defaulting combinators; a `None` edge that reaches a normal return). RH displaced-keeps-length / grow vs propagate's start slot (see C02). Added (round 10): DI - a field initialised with a function of a sibling field (eagerly derived) is stored again by every method that changes the sibling, also through interior mutability; PA - a call that opens a scope (enter/begin/open/...) whose counterpart exists in the crate is followed by the counterpart on every path to a return. Added (round 10, second half): DI eager, arithmetic form - a field initialised by arithmetic on the value a sibling field stores (mask = cap - 1) is stored again by every method that changes the sibling (grow); RH leaves a masked home slot undecided.",
     },
     "C05": {
         "level": "other",
@@ -268,7 +268,7 @@ PROPS = {
                        "smaller element on comparable values (LAW), accumulators start at one (FS), PartialModel set/get follow the "
                        "two-set definition (PM). NOT decided (and not claimed): that the bound is admissible and the result a true "
                        "optimum for given floating-point weights, MEU's side conditions on utilities and variable order - numerical "
-                       "facts about run-time values.",
+                       "facts about run-time values. Added (round 10, second half): BB3 - a branch bound obtained by dividing by a literal weight is reported (a weight may be 0; NaN compares false with everything and both branches are pruned).",
         "assumptions": ["the weights satisfy the property's stated domain; admissibility of the bound is not analysed Added (round 9): BB7 also covers returns of the drivers that do not come from the search (a shortcut for a constant diagram): the pair must be (value of the assignment, that assignment). Added (round 10): DI - a field initialised with a function of a sibling field (eagerly derived) is stored again by every method that changes the sibling, also through interior mutability; PA - a call that opens a scope (enter/begin/open/...) whose counterpart exists in the crate is followed by the counterpart on every path to a return."],
     },
     "C13": {
@@ -278,7 +278,7 @@ PROPS = {
                        "type invariant v in [0,P-1]: no u128 overflow/underflow (NB); every FiniteField literal is reduced "
                        "(NB-inv); subtraction borrows the modulus (NB-mod); polynomial coefficient writes are bounded by "
                        "MAX_COEFFS (NB-poly). Not decided: associativity, commutativity, distributivity, lattice laws of "
-                       "real/complex/Boolean/rational/expected-utility values. Added (round 9): MM - the double-and-add loop of mul_mod keeps the inductive invariant acc + mult*count = a*b (mod P): initial values, one iteration for either value of the low bit (count = 2q+bit, count' = q), exit with count = 0 returning acc - proved as polynomial identities on the loop's terms. Added (round 10): DI - a field initialised with a function of a sibling field (eagerly derived) is stored again by every method that changes the sibling, also through interior mutability; PA - a call that opens a scope (enter/begin/open/...) whose counterpart exists in the crate is followed by the counterpart on every path to a return. LAW mul-pairs-complete (see C07).",
+                       "real/complex/Boolean/rational/expected-utility values. Added (round 9): MM - the double-and-add loop of mul_mod keeps the inductive invariant acc + mult*count = a*b (mod P): initial values, one iteration for either value of the low bit (count = 2q+bit, count' = q), exit with count = 0 returning acc - proved as polynomial identities on the loop's terms. Added (round 10): DI - a field initialised with a function of a sibling field (eagerly derived) is stored again by every method that changes the sibling, also through interior mutability; PA - a call that opens a scope (enter/begin/open/...) whose counterpart exists in the crate is followed by the counterpart on every path to a return. LAW mul-pairs-complete (see C07). Added (round 10, second half): GL14 - a static / thread-local memo declared inside the generic mul_mod is one table for every modulus: the compared key must carry P itself (residues modulo P do not). NB evaluates the arms of a join under the branch facts of the block each comes from.",
     },
     "C14": {
         "level": "other",
@@ -303,22 +303,22 @@ PROPS = {
     },
     "C16": {
         "level": "proof",
-        "rules": [("PA", 1, None), ("DI", 0, None), ("TR", 0, has("util::lru", "builder::cache", "app_cache", "ite_cache")), ("GL", 24, hasnot("GL3", "component-cache", "GL6", "GL7")), ("CP", 2, has("IteTable:compl-flag")), ("ST", 2, None)],
+        "rules": [("PA", 1, None), ("DI", 0, None), ("TR", 0, has("util::lru", "builder::cache", "app_cache", "ite_cache")), ("GL", 26, hasnot("GL3", "component-cache", "GL6", "GL7")), ("CP", 2, has("IteTable:compl-flag")), ("ST", 2, None)],
         "explanation": "Complete structural argument for the first sentence: Lru::get returns Some(e.val) only under the "
                        "true edge of e.key == key (GL1); insert writes one Element{key,val,hash} of its own arguments into "
                        "the slot that get reads, grow re-inserts whole triples (GL2); the adapter's hash is a function of "
                        "(f,g,h) only (GL5); callers use one key and one hash for lookup and insert (GL4). Not decided: the "
-                       "consequence for builder results (needs C01). Added: each ITE table files a result under the very key it looks it up by, for both Ite variants (GL8); a persistent memo is keyed by every parameter used (GL9); cache accessors store the result unchanged (GL10); what is stored is what is returned (GL11). Added (round 10): DI - a field initialised with a function of a sibling field (eagerly derived) is stored again by every method that changes the sibling, also through interior mutability; PA - a call that opens a scope (enter/begin/open/...) whose counterpart exists in the crate is followed by the counterpart on every path to a return. CP second-level memo: a remembered hit in front of an ITE table is keyed by, or adjusted for, the complement flag.",
+                       "consequence for builder results (needs C01). Added: each ITE table files a result under the very key it looks it up by, for both Ite variants (GL8); a persistent memo is keyed by every parameter used (GL9); cache accessors store the result unchanged (GL10); what is stored is what is returned (GL11). Added (round 10): DI - a field initialised with a function of a sibling field (eagerly derived) is stored again by every method that changes the sibling, also through interior mutability; PA - a call that opens a scope (enter/begin/open/...) whose counterpart exists in the crate is followed by the counterpart on every path to a return. CP second-level memo: a remembered hit in front of an ITE table is keyed by, or adjusted for, the complement flag. Added (round 10, second half): GL12 - a table filled on demand in a field of the object is keyed by every parameter its entries are built from; GL13 - a rewritten ITE key denotes the triple; GL14 - a static memo inside a generic function carries the generic constant in its key.",
     },
     "C17": {
         "level": "other",
         "rules": [("PA", 1, None), ("DI", 0, None), ("MP", 1, has("variable-numbering")), ("DP", 12, has("from_sexpr", "VTreeSerializer", "from_dimacs", "to_dimacs")), ("IC", 1, has("from_dimacs")),
-                  ("CP", 6, has("serialize::")), ("CN", 1, has("repr::cnf::")), ("SR", 3, None), ("LE", 7, None),
+                  ("CP", 8, has("serialize::")), ("CN", 1, has("repr::cnf::")), ("SR", 3, None), ("LE", 7, None),
                   ("NC", 5, has("from_dimacs", "to_dimacs")), ("SP", 0, has("SP1:serialize", "SP1:ffi::bdd::bdd_to_json")), ("LP", 6, None), ("DP", 1, has("from_string:sign")), ("EM", 3, has("from_dimacs", "to_dimacs")), ("UV", 1, None), ("TX", 2, None)],
         "explanation": "The s-expression translation and the vtree mirror map each variant to its namesake with children in "
                        "order (DP); DIMACS signs map Neg to false and Pos to true in both parsers (DP); the CNF parser "
                        "subtracts one from the 1-based DIMACS variable (IC OneBased -> Index). Not decided: model-level "
-                       "equality of parsed formulas; JSON well-formedness (serde). Added: in the s-expression parser every special case of a negated operand still denotes the negation (Not(Not e) may only shortcut to e). Added after the fourth seeding round: the DIMACS readers keep every clause and every literal of the text (NC: every iteration of a loop over the items pushes onto its accumulator; an iterator chain from the items to collect() has no filter/skip/take/dedup) - a dropped clause gives the result extra models while everything downstream stays consistent. The serialisers keep their node-to-row table in a per-call map; should one of them start to use the per-node scratch slot instead, it falls under the leak rule of C10 (SP1: every externally reachable function that sets scratch clears it on every path to return) - row indices that survive a call refer to the previous call's table (floor 0: no such instance today). Added: LP — the bit-field packing of Literal (known-bits/provenance analysis of the generated accessors): the label and polarity fields do not overlap, each setter writes exactly what its getter reads, label(new(l,p)) = l and polarity(new(l,p)) = p, and negated/implies_true/implies_false equal their definitions by truth table. Added: DP from_string — the string format writes a literal as a signed label without offset, so it is negative exactly for negative numbers (`0` is the positive literal of variable 0; defect D11, repaired). Added: EM — empty cases by abstract evaluation under the assumption that one collection is empty (loops over it do not run, len = 0, pop/last/next = None): the DIMACS readers and the printer on an empty clause / no clause; LogicalExpr::from_dimacs unwraps None on both (known findings, not repaired: LogicalExpr has no constants). Added (round 9): UV - the s-expression variable collector visits every sub-formula and unites the sets (by return value or through an accumulator worker). TX - the text handed to the DIMACS parser is not thinned by a content test that formula text can meet (a line that is just `0` is a clause terminator / the empty clause). MP documented-order: variable_mapping numbers the names in the documented lexicographic order. Added (round 10): DI - a field initialised with a function of a sibling field (eagerly derived) is stored again by every method that changes the sibling, also through interior mutability; PA - a call that opens a scope (enter/begin/open/...) whose counterpart exists in the crate is followed by the counterpart on every path to a return.",
+                       "equality of parsed formulas; JSON well-formedness (serde). Added: in the s-expression parser every special case of a negated operand still denotes the negation (Not(Not e) may only shortcut to e). Added after the fourth seeding round: the DIMACS readers keep every clause and every literal of the text (NC: every iteration of a loop over the items pushes onto its accumulator; an iterator chain from the items to collect() has no filter/skip/take/dedup) - a dropped clause gives the result extra models while everything downstream stays consistent. The serialisers keep their node-to-row table in a per-call map; should one of them start to use the per-node scratch slot instead, it falls under the leak rule of C10 (SP1: every externally reachable function that sets scratch clears it on every path to return) - row indices that survive a call refer to the previous call's table (floor 0: no such instance today). Added: LP — the bit-field packing of Literal (known-bits/provenance analysis of the generated accessors): the label and polarity fields do not overlap, each setter writes exactly what its getter reads, label(new(l,p)) = l and polarity(new(l,p)) = p, and negated/implies_true/implies_false equal their definitions by truth table. Added: DP from_string — the string format writes a literal as a signed label without offset, so it is negative exactly for negative numbers (`0` is the positive literal of variable 0; defect D11, repaired). Added: EM — empty cases by abstract evaluation under the assumption that one collection is empty (loops over it do not run, len = 0, pop/last/next = None): the DIMACS readers and the printer on an empty clause / no clause; LogicalExpr::from_dimacs unwraps None on both (known findings, not repaired: LogicalExpr has no constants). Added (round 9): UV - the s-expression variable collector visits every sub-formula and unites the sets (by return value or through an accumulator worker). TX - the text handed to the DIMACS parser is not thinned by a content test that formula text can meet (a line that is just `0` is a clause terminator / the empty clause). MP documented-order: variable_mapping numbers the names in the documented lexicographic order. Added (round 10): DI - a field initialised with a function of a sibling field (eagerly derived) is stored again by every method that changes the sibling, also through interior mutability; PA - a call that opens a scope (enter/begin/open/...) whose counterpart exists in the crate is followed by the counterpart on every path to a return. Added (round 10, second half): CP root-is-helper-result - a serialiser entry point that builds a root pointer itself takes the complement bit from the helper's result (a terminal root already carries its negation); the flag predicate is read through a private helper.",
     },
     "C18": {
         "level": "proof",
@@ -334,11 +334,11 @@ PROPS = {
     },
     "C19": {
         "level": "other",
-        "rules": [("PA", 1, None), ("DI", 0, None), ("GL", 1, lambda r: "::bdd::" in r["key"] and (":GL9:" in r["key"] or ":GL6:" in r["key"] or ":GL12:" in r["key"])), ("MP", 8, hasnot("documented-order")), ("SL", 7, None), ("CP", 3, has("ser_bdd")), ("VO", 3, has("var_at_level", "VarOrder::new:inverse-by-construction")),
+        "rules": [("PA", 1, None), ("DI", 0, None), ("GL", 1, lambda r: "::bdd::" in r["key"] and (":GL9:" in r["key"] or ":GL6:" in r["key"] or ":GL12:" in r["key"])), ("MP", 8, hasnot("documented-order")), ("SL", 7, None), ("CP", 4, has("ser_bdd")), ("VO", 3, has("var_at_level", "VarOrder::new:inverse-by-construction")),
                   ("CN", 1, has("dedup")), ("DP", 9, has("from_dimacs:sign", "from_sexpr")), ("DP", 4, has("compile_logical_expr", "BottomUpPlan::from_dtree")), ("SR", 1, has("ser_bdd")),
                   ("NC", 4, has("Cnf::from_dimacs", "DTree::from_cnf")), ("MF", 4, None), ("EM", 3, has("DTree::from_cnf", "force_order", "average_span")), ("SH", 1, has("ite_helper:SH1")), ("UV", 1, None), ("TX", 1, has("Cnf::from_dimacs")), ("FS", 1, has("BottomUpPlan::from_dtree"))],
         "explanation": "In each tool the counted / serialised diagram is the compiled one, compiled on a builder whose order "
                        "comes from the same formula; counts are taken on smooth(_, num_vars); weights are keyed by the "
-                       "expression's own variable mapping (MP, SL2). Not decided: the printed numbers. Added after the fourth seeding round: VarOrder::new fills var_to_pos as the inverse of pos_to_var (VO inverse-by-construction); apply reads one table and smoothing the other. Added after the fourth seeding round: the DIMACS reader keeps every clause and every literal of the text (NC: every iteration of a loop over the items pushes onto its accumulator; an iterator chain from the items to collect() has no filter/skip/take/dedup) - a dropped clause gives the result extra models while everything downstream stays consistent. Added: MF — the `auto_minfill` order the tools compile under is a permutation of the variables by construction (see C14). Added: EM — empty cases by abstract evaluation under the assumption that one collection is empty (loops over it do not run, len = 0, pop/last/next = None): what the CNF tool's strategies (dtree plan, auto_force order) do on degenerate inputs: D13 repaired, the dtree of the empty formula is a known finding. Added: SH1 — the formula tool compiles Ite/Xor/Iff through ite_helper, whose decision node is node(first essential variable of (f,g,h), ite of the false-cofactors, ite of the true-cofactors). Added (round 9): UV, TX (see C17); GL6/GL9 of the BDD code (see C08). Added (round 10): DI - a field initialised with a function of a sibling field (eagerly derived) is stored again by every method that changes the sibling, also through interior mutability; PA - a call that opens a scope (enter/begin/open/...) whose counterpart exists in the crate is followed by the counterpart on every path to a return.",
+                       "expression's own variable mapping (MP, SL2). Not decided: the printed numbers. Added after the fourth seeding round: VarOrder::new fills var_to_pos as the inverse of pos_to_var (VO inverse-by-construction); apply reads one table and smoothing the other. Added after the fourth seeding round: the DIMACS reader keeps every clause and every literal of the text (NC: every iteration of a loop over the items pushes onto its accumulator; an iterator chain from the items to collect() has no filter/skip/take/dedup) - a dropped clause gives the result extra models while everything downstream stays consistent. Added: MF — the `auto_minfill` order the tools compile under is a permutation of the variables by construction (see C14). Added: EM — empty cases by abstract evaluation under the assumption that one collection is empty (loops over it do not run, len = 0, pop/last/next = None): what the CNF tool's strategies (dtree plan, auto_force order) do on degenerate inputs: D13 repaired, the dtree of the empty formula is a known finding. Added: SH1 — the formula tool compiles Ite/Xor/Iff through ite_helper, whose decision node is node(first essential variable of (f,g,h), ite of the false-cofactors, ite of the true-cofactors). Added (round 9): UV, TX (see C17); GL6/GL9 of the BDD code (see C08). Added (round 10): DI - a field initialised with a function of a sibling field (eagerly derived) is stored again by every method that changes the sibling, also through interior mutability; PA - a call that opens a scope (enter/begin/open/...) whose counterpart exists in the crate is followed by the counterpart on every path to a return. Added (round 10, second half): FS reduce<-or of BottomUpPlan::from_dtree (an empty clause is false: the fall-back of reduce(or) is the identity of or); GL12, SL4 (see C08); CP root-is-helper-result for the BDD serialiser.",
     },
 }
